@@ -406,12 +406,27 @@ def check_hkdf(ck_ob, mod, label):
             path.lfmem[(ST, POSN, 1)] = Lf.c(pz)
             path.start_lfmem = dict(path.lfmem)
         starts.append(("posn=%d" % pz, setup))
-    ex = irx.Exec(f, Handler(), havoc="auto", auto=True, int_cells=icells, starts=starts, split_max=33)
-    ps = ex.run(max_paths=6000)
-    no_data_branches(f, ps)
     if len(f.loops) != 1:
         raise Broken("tinyjambu_hkdf_expand: expected one loop")
     hdr = f.loops[0]["header"]
+    state_cells = icells
+
+    def icells(ob, off, n, f=f):
+        # also: scalar integer locals whose address is taken (a cached copy of the block counter handed to the HMAC by pointer)
+        if state_cells(ob, off, n):
+            return True
+        if ob[0] == "alloca" and off == 0 and isinstance(ob[1], int):
+            A_ = f.insts[ob[1]]
+            return A_.get("alloc_ty") in ("i8", "i16", "i32", "i64") and A_.get("alloc_size") == n
+        return False
+    ex = irx.Exec(f, Handler(), havoc="auto", auto=True, int_cells=icells, starts=starts, split_max=33)
+    ps = ex.run(max_paths=6000)
+    alias = irx.infer_cell_aliases(ps, hdr)
+    if alias:
+        # a local and a state field that hold the same value at every loop entry and back edge share one unknown at the loop head
+        ex = irx.Exec(f, Handler(), havoc="auto", auto=True, int_cells=icells, starts=starts, split_max=33, cell_alias=alias)
+        ps = ex.run(max_paths=6000)
+    no_data_branches(f, ps)
     ptrs = [f.insts[i] for i in f.blocks[hdr].insts if f.insts[i].op == "phi" and (f.insts[i].get("ty") or "").endswith("*")]
     ints = [f.insts[i] for i in f.blocks[hdr].insts if f.insts[i].op == "phi" and not (f.insts[i].get("ty") or "").endswith("*")]
     # "avoid the double copy": whole blocks finalised straight into the caller's buffer, with a loop-carried pointer to the previous block
@@ -445,7 +460,7 @@ def check_hkdf(ck_ob, mod, label):
         forms = {"state": want_prev, "caller": Lf({cur: 1, 1: -32})}
         merged = [p for p in ps if not (p.blocks and p.blocks[0] == hdr and not [e for e in p.events if e[0] == "class" and e[1] == "start"])]
         for fname_, lf_ in forms.items():
-            ex_f = irx.Exec(f, Handler(), havoc="auto", auto=True, int_cells=icells, starts=starts[:1], split_max=33, head_consts={prevphi.id: lf_})
+            ex_f = irx.Exec(f, Handler(), havoc="auto", auto=True, int_cells=icells, starts=starts[:1], split_max=33, head_consts={prevphi.id: lf_}, cell_alias=alias)
             for q in ex_f.run(max_paths=6000):
                 if q.blocks and q.blocks[0] == hdr and not [e for e in q.events if e[0] == "class" and e[1] == "start"]:
                     q.prevform = fname_
@@ -566,7 +581,8 @@ def check_hkdf(ck_ob, mod, label):
             k = 2
         okI = ev[k][3] == (H, INFO, INFOLEN)
         cell = gf2.sym_word(("lfcell", repr(ex.subst(p, cnt0))), 8) if cntc is None else gf2.const_word(cntc, 8)
-        okC = ev[k + 1][3][0] == H and ev[k + 1][3][1] == repr(Lf({ST: 1, 1: CNT})) and ev[k + 1][3][2] == "1" and ev[k + 1][4] == (tuple(cell),)
+        # (what is absorbed is the byte's value - from the state field or from a local copy of it - not where it is kept)
+        okC = ev[k + 1][3][0] == H and ev[k + 1][3][2] == "1" and ev[k + 1][4] == (tuple(cell),)
         tgt_ = ev[k + 2][3][3] if len(ev[k + 2][3]) > 3 else None
         direct = prevphi is not None and tgt_ == repr(Lf.s(cur))
         okF = ev[k + 2][3][:3] == (H, ev[0][3][1], "32") and (tgt_ == repr(Lf({ST: 1, 1: OUTF})) or direct) and ev[k + 3][3] == (H,)
